@@ -8,6 +8,9 @@ From Coq Require Import ZifyBool.
 Ltac Zify.zify_post_hook ::= Z.to_euclidean_division_equations.
 Set Default Timeout 60.
 
+Section WithUsize.
+Context {U : Usize}.
+
 (* ---- ranges of validity ------------------------------------------------------------------------------ *)
 (* WIDTH, HEIGHT fit the `as u32` / `as i32` casts of as_image / pixel; data is the [u8; N] array with
    N >= BUFFER_SIZE (CHECK_N) and below 2 EiB *)
@@ -638,3 +641,5 @@ Proof.
   assert (Pi : pix_index c (x, y) = y * fb_data_width c + x) by (unfold pix_index; cbn [fst snd]; ring).
   rewrite Z2Nat.id by lia. rewrite <- Pi. unfold d. symmetry. apply load_prefix; auto; lia.
 Qed.
+
+End WithUsize.
